@@ -41,7 +41,7 @@ func c08CGen(t *rapid.T) C08CCase {
 		}
 		return h
 	}
-	return C08CCase{FlusherHist: hist("fh"), WriterHist: hist("wh"), WriterFirst: rapid.Bool().Draw(t, "wfirst"), Flush: rapid.IntRange(0, 3).Draw(t, "flush"),
+	return C08CCase{FlusherHist: hist("fh"), WriterHist: hist("wh"), WriterFirst: rapid.Bool().Draw(t, "wfirst"), Flush: rapid.IntRange(0, 5).Draw(t, "flush"),
 		N: pick(t, "n", 400, 1200, 3000), Rounds: rapid.IntRange(10, 40).Draw(t, "rounds"), DB: pick(t, "db", 0, 0, 3)}
 }
 
@@ -83,6 +83,15 @@ func c08History(conn, other *kit.Conn, h []int, tag string) error {
 }
 
 func c08CRun(c C08CCase, st *kit.Stats) error {
+	stalls := kit.Stalls.Load()
+	err := c08CRunInner(c, st)
+	if err == nil {
+		err = kit.StallError(stalls)
+	}
+	return err
+}
+
+func c08CRunInner(c C08CCase, st *kit.Stats) error {
 	emu := kit.StartEmu("")
 	defer emu.Stop()
 	flusher, writer, reader, admin := emu.Dial(), emu.Dial(), emu.Dial(), emu.Dial()
@@ -144,22 +153,28 @@ func c08CRun(c C08CCase, st *kit.Stats) error {
 				flusher.Do("MULTI")
 				flusher.Do("FLUSHALL")
 				flusher.Do("EXEC")
-			default:
+			case 3:
 				flusher.Do("flushall")
+			case 4:
+				flusher.Do("FLUSHALL", "ASYNC")
+			default:
+				flusher.Do("FLUSHDB", "ASYNC")
 			}
+			// what this connection writes after its flush was acknowledged is not flushed
+			flusher.Do("SET", "marker", strconv.Itoa(r))
 		}()
 		go func() {
 			defer wg.Done()
 			for done.Load() < 2 {
 				v, err := reader.Do("DBSIZE")
-				if err == nil && v.K == kit.KInt && v.I != 0 && v.I != int64(c.N) {
+				if err == nil && v.K == kit.KInt && v.I != 0 && v.I != 1 && v.I != int64(c.N) && v.I != int64(c.N)+1 {
 					bad.Store(v.I)
 					return
 				}
 			}
 		}()
 		wg.Wait()
-		what := []string{"FLUSHALL", "FLUSHDB", "MULTI/FLUSHALL/EXEC", "flushall"}[c.Flush]
+		what := []string{"FLUSHALL", "FLUSHDB", "MULTI/FLUSHALL/EXEC", "flushall", "FLUSHALL ASYNC", "FLUSHDB ASYNC"}[c.Flush]
 		hist := func(h []int) []string {
 			var out []string
 			for _, x := range h {
@@ -170,6 +185,10 @@ func c08CRun(c C08CCase, st *kit.Stats) error {
 		if b := bad.Load(); b >= 0 {
 			return fmt.Errorf("round %d: while one connection ran MSET of %d keys and another ran %s, DBSIZE replied %d: a partially applied command is visible (flusher history %v, writer history %v)", r, c.N, what, b, hist(c.FlusherHist), hist(c.WriterHist))
 		}
+		if mv, err := flusher.Do("GET", "marker"); err != nil || !kit.Equal(mv, kit.Bulk(strconv.Itoa(r))) {
+			return fmt.Errorf("round %d: a connection ran %s, then SET marker %d (both acknowledged); its GET marker now replies %v: the flush took effect after a later command of the same connection (flusher history %v, writer history %v)", r, what, r, mv, hist(c.FlusherHist), hist(c.WriterHist))
+		}
+		flusher.Do("DEL", "marker")
 		v, err := admin.Do("DBSIZE")
 		if err != nil || v.K != kit.KInt || (v.I != 0 && v.I != int64(c.N)) {
 			return fmt.Errorf("round %d: after a concurrent MSET of %d keys and %s the database holds %v keys: no order of the two commands gives that (flusher history %v, writer history %v)", r, c.N, what, v, hist(c.FlusherHist), hist(c.WriterHist))
